@@ -123,6 +123,15 @@ def main(seed):
                                      {"op": "alias", "h": 2, "a1": "1", "a2": "", "obs": ["unit"]}, {"op": "get_variable", "h": 2, "a1": "n1", "a2": "", "obs": ["nothing"]}]}])
     out, _ = core.run_vh(["ctxapi-replay", rp])
     expect("ctxapi-replay reports a wrong expected result", any("mismatch" in o for o in out))
+    # operand-shape independence: a variant tree that regroups the level operators is rejected by TraceShape
+    sp = os.path.join(tlc.WORK, "self-shape.ndjson")
+    x, y, z, y2 = ["ref", "x"], ["ref", "y"], ["ref", "z"], ["ref", "y2"]
+    good = {"pair": 1, "kind": 1, "tight": "*", "base_ok": True, "base": ["bin", "b", ["bin", "a", x, y], z], "var_ok": True, "var": ["bin", "b", ["bin", "a", x, ["bin", "*", y, y2]], z]}
+    regrouped = dict(good, var=["bin", "a", x, ["bin", "b", ["bin", "*", y, y2], z]])
+    core.write_ndjson(sp, [good, regrouped, dict(good, var_ok=False, var=[])])
+    r = tlc.run("trace/TraceShape.tla", "trace/TraceShape.cfg", workers=1, env={"TRACE": sp})
+    mm = sorted(p["mismatch"] for p in core.tlc_printed_records(r) if "mismatch" in p)
+    expect("TraceShape accepts a substituted operand, rejects a regrouping and a rejection", mm == [1, 2], str(mm))
     bad = [n for n, ok, _ in results if not ok]
     print("selftest: %d of %d passed" % (len(results) - len(bad), len(results)))
     return 1 if bad else 0
